@@ -350,6 +350,7 @@ type c15Out struct {
 	nontriv  map[string]bool
 	requests int
 	skipped  int
+	contended, dropped int
 }
 
 func (o *c15Out) violation(kind string, detail interface{}) {
@@ -734,22 +735,60 @@ func c15CoqRuns(runs [][2]int) string {
 // ---------- family bulk ----------
 
 // c15RunBulk: g goroutines are released by one barrier and issue per requests each.
-// qos 1: one request each, all outstanding together (acknowledgements withheld until all are on
-// the wire); qos 0: publishes return at once, identifiers are read from Message.ID.
-func c15RunBulk(o *c15Out, s uint32, g, per int, qos byte) error {
-	w, err := c15NewWorld(false)
-	if err != nil {
-		return err
-	}
-	defer w.close()
-	w.s.cli.VerifSetIDLast(s)
-	ctx, cancel := ctxTimeout(5 * time.Minute)
-	defer cancel()
-	cli := w.s.cli
+// mode 1: QoS 1, one request each, all outstanding together (acknowledgements withheld until all
+//         are on the wire);
+// mode 0: QoS 0 on the connected client, publishes return at once, identifiers read from Message.ID;
+// mode 2: QoS 0 on a client that was never connected: Publish takes an identifier and then fails
+//         with ErrNotConnected without touching the transport — the counter is the only shared thing,
+//         so the goroutines really contend on it.
+// Every goroutine also bumps a deliberately NON-atomic control counter (load, then store) right
+// before its first call: a lost update there proves that the goroutines of this burst did overlap
+// (contended); a burst without such proof says little about atomicity and may be repeated by the
+// caller. A burst that shows a duplicate or a zero itself is always kept.
+type c15BulkRes struct {
+	contended  bool
+	suspicious bool
+	skip       bool // mode 2 not applicable: no identifier is assigned before the connection check
+	coq        string
+	fam        map[string]interface{}
+	n          int
+	s          uint32
+	key        string
+	qos        byte
+}
+
+func c15RunBulk(o *c15Out, s uint32, g, per int, mode int) (*c15BulkRes, error) {
 	n := g * per
 	ids := make([]uint16, 0, n)
 	stuck := ""
-	if qos == 0 {
+	var ctl uint32
+	bump := func() {
+		v := atomic.LoadUint32(&ctl) + 1
+		atomic.StoreUint32(&ctl, v)
+	}
+	var fin uint32
+	var anomalies []string
+	qos := byte(0)
+	if mode == 1 {
+		qos = 1
+	}
+	if mode != 1 {
+		var cli *mqtt.BaseClient
+		var w *c15World
+		if mode == 0 {
+			var err error
+			w, err = c15NewWorld(false)
+			if err != nil {
+				return nil, err
+			}
+			defer w.close()
+			cli = w.s.cli
+		} else {
+			cli = &mqtt.BaseClient{}
+		}
+		cli.VerifSetIDLast(s)
+		ctx, cancel := ctxTimeout(5 * time.Minute)
+		defer cancel()
 		start := make(chan struct{})
 		res := make([][]uint16, g)
 		var wg sync.WaitGroup
@@ -757,10 +796,12 @@ func c15RunBulk(o *c15Out, s uint32, g, per int, qos byte) error {
 			wg.Add(1)
 			go func(k int) {
 				defer wg.Done()
+				res[k] = make([]uint16, 0, per)
 				<-start
+				bump()
 				for i := 0; i < per; i++ {
 					m := &mqtt.Message{Topic: "b", QoS: mqtt.QoS0, Payload: []byte{1}}
-					if err := cli.Publish(ctx, m); err != nil {
+					if err := cli.Publish(ctx, m); err != nil && mode == 0 {
 						return
 					}
 					res[k] = append(res[k], m.ID)
@@ -775,7 +816,32 @@ func c15RunBulk(o *c15Out, s uint32, g, per int, qos byte) error {
 		if len(ids) != n {
 			stuck = fmt.Sprintf("%d of %d QoS 0 publishes failed", n-len(ids), n)
 		}
+		fin = cli.VerifIDLast()
+		if w != nil {
+			anomalies = w.anomaly
+		}
+		if mode == 2 {
+			all0 := true
+			for _, id := range ids {
+				if id != 0 {
+					all0 = false
+					break
+				}
+			}
+			if all0 && fin == s {
+				return &c15BulkRes{skip: true}, nil
+			}
+		}
 	} else {
+		w, err := c15NewWorld(false)
+		if err != nil {
+			return nil, err
+		}
+		defer w.close()
+		cli := w.s.cli
+		cli.VerifSetIDLast(s)
+		ctx, cancel := ctxTimeout(5 * time.Minute)
+		defer cancel()
 		recs := make([]*c15Rec, n)
 		for i := range recs {
 			recs[i] = w.newRec(i, 0, c15Req{Kind: 'p', QoS: 1})
@@ -788,6 +854,7 @@ func c15RunBulk(o *c15Out, s uint32, g, per int, qos byte) error {
 				defer wg.Done()
 				rec.msg = &mqtt.Message{Topic: rec.tag, QoS: mqtt.QoS1, Payload: []byte{1}}
 				<-start
+				bump()
 				rec.done <- cli.Publish(ctx, rec.msg)
 			}(recs[i])
 		}
@@ -820,28 +887,47 @@ func c15RunBulk(o *c15Out, s uint32, g, per int, qos byte) error {
 		// release whatever is left before wg.Wait
 		w.s.conn.Close()
 		wg.Wait()
+		fin = cli.VerifIDLast()
+		anomalies = w.anomaly
 	}
-	o.requests += n
 	sort.Slice(ids, func(i, j int) bool { return ids[i] < ids[j] })
+	res := &c15BulkRes{n: n, s: s, qos: qos, key: fmt.Sprint("bulk", s, g, per, mode)}
+	res.contended = int(atomic.LoadUint32(&ctl)) != g
+	for i, id := range ids {
+		if id == 0 || (i > 0 && ids[i-1] == id) {
+			res.suspicious = true
+		}
+	}
 	runs := c15Runs(ids)
 	if len(runs) > 3000 {
 		runs = runs[:3000] // enough to show the disagreement; keeps the Coq input small
 	}
 	if stuck != "" {
+		res.suspicious = true
 		o.violation("stuck", map[string]interface{}{"start": s, "goroutines": g, "each": per, "what": stuck})
 	}
-	for _, a := range w.anomaly {
+	for _, a := range anomalies {
+		res.suspicious = true
 		o.violation("anomaly", a)
 	}
-	fin := w.s.cli.VerifIDLast()
-	o.bulk = append(o.bulk, cTuple(cN(uint64(s)), cN(uint64(n)), cBool(qos != 0), c15CoqRuns(runs), cN(uint64(fin))))
-	c := map[string]interface{}{"start_counter": s, "goroutines": g, "requests_each": per, "qos": qos, "counter_afterwards": fin,
+	res.coq = cTuple(cN(uint64(s)), cN(uint64(n)), cBool(mode == 1), c15CoqRuns(runs), cN(uint64(fin)))
+	res.fam = map[string]interface{}{"start_counter": s, "goroutines": g, "requests_each": per,
+		"kind": []string{"QoS0 publishes, connected", "QoS1 publishes, all outstanding", "QoS0 publishes, never connected (ErrNotConnected after the identifier is taken)"}[mode],
+		"counter_afterwards": fin, "overlap_proved_by_control_counter": res.contended,
 		"identifiers_sorted_as_runs(first,length)": runs[:c15Min(len(runs), 12)], "runs": len(runs)}
-	o.m.Families["bulk"] = append(o.m.Families["bulk"], c)
-	o.starts[c15StartClass(s)]++
-	o.kinds[fmt.Sprintf("publish_q%d", qos)] += n
-	o.nontriv[fmt.Sprint("bulk", s, g, per, qos)] = true
-	return nil
+	return res, nil
+}
+
+func (o *c15Out) keepBulk(b *c15BulkRes) {
+	o.requests += b.n
+	o.bulk = append(o.bulk, b.coq)
+	o.m.Families["bulk"] = append(o.m.Families["bulk"], b.fam)
+	o.starts[c15StartClass(b.s)]++
+	o.kinds[fmt.Sprintf("publish_q%d", b.qos)] += b.n
+	o.nontriv[b.key] = true
+	if b.contended {
+		o.contended++
+	}
 }
 
 func c15Min(a, b int) int {
@@ -986,27 +1072,31 @@ func runC15(cfg *runCfg) error {
 	o := &c15Out{m: m, kinds: map[string]int{}, starts: map[string]int{}, nontriv: map[string]bool{}}
 
 	nSeq, nConc, maxLen := 220, 40, 24
+	// bulk: (goroutines, requests each, mode) — see c15RunBulk; want = bursts with proved overlap
+	// to collect per mode-1 entry (a burst without it is repeated, at most maxTry times in total)
 	type bulkSpec struct {
-		g, per int
-		qos    byte
+		g, per, mode int
 	}
-	bulks := []bulkSpec{{2000, 1, 1}, {16, 1500, 0}, {1500, 1, 1}, {3000, 1, 1}, {64, 300, 0}, {3000, 1, 1},
-		{2500, 1, 1}, {16, 1500, 0}, {3000, 1, 1}, {3000, 1, 1}, {32, 700, 0}, {3000, 1, 1}}
+	bulks := []bulkSpec{{2000, 1, 1}, {16, 600, 0}, {3000, 1, 1}, {16, 2000, 2}, {3000, 1, 1}, {64, 100, 0},
+		{3000, 1, 1}, {4, 3000, 2}, {3000, 1, 1}, {3000, 1, 1}}
+	maxTry := 60
 	cycles := 1
 	switch cfg.tier {
 	case "thorough":
 		nSeq, nConc, maxLen = 2500, 500, 60
 		bulks = nil
 		for i := 0; i < 12; i++ {
-			bulks = append(bulks, bulkSpec{3000, 1, 1}, bulkSpec{16, 3000, 0}, bulkSpec{64, 300, 0})
+			bulks = append(bulks, bulkSpec{3000, 1, 1}, bulkSpec{16, 1500, 0}, bulkSpec{16, 3000, 2}, bulkSpec{4000, 1, 1})
 		}
+		maxTry = 400
 		cycles = 3
 	case "search":
 		nSeq, nConc, maxLen = 400, 80, 40
 		bulks = nil
-		for i := 0; i < 16; i++ {
-			bulks = append(bulks, bulkSpec{3000, 1, 1}, bulkSpec{3000, 1, 1}, bulkSpec{32, 1000, 0})
+		for i := 0; i < 10; i++ {
+			bulks = append(bulks, bulkSpec{3000, 1, 1}, bulkSpec{3000, 1, 1}, bulkSpec{8, 1500, 2})
 		}
+		maxTry = 200
 		cycles = 1
 	}
 
@@ -1075,15 +1165,29 @@ func runC15(cfg *runCfg) error {
 		}
 	}
 	// --- bulk ---
+	tries := 0
 	for i, b := range bulks {
-		s := c15PickStart(r)
-		if i%3 == 0 || cfg.tier == "search" {
-			s = 0xFFFFFFFF - uint32(r.Intn(b.g*b.per)) // the 32-bit wrap falls inside the burst
-		} else if i%3 == 1 {
-			s = uint32(r.Intn(65536))<<16 | uint32(0xFFFF-r.Intn(b.g*b.per)) // a 16-bit wrap falls inside
-		}
-		if err := c15RunBulk(o, s, b.g, b.per, b.qos); err != nil {
-			return err
+		for {
+			s := c15PickStart(r)
+			if i%3 == 0 || cfg.tier == "search" {
+				s = 0xFFFFFFFF - uint32(r.Intn(b.g*b.per)) // the 32-bit wrap falls inside the burst
+			} else if i%3 == 1 {
+				s = uint32(r.Intn(65536))<<16 | uint32(0xFFFF-r.Intn(c15Min(b.g*b.per, 60000))) // a 16-bit wrap falls inside
+			}
+			res, err := c15RunBulk(o, s, b.g, b.per, b.mode)
+			if err != nil {
+				return err
+			}
+			tries++
+			if res.skip {
+				o.dropped++
+				break
+			}
+			if b.mode != 1 || res.contended || res.suspicious || tries >= maxTry || c15GiveUp() {
+				o.keepBulk(res)
+				break
+			}
+			o.dropped++ // no overlap proved and nothing wrong seen: try again for a better burst
 		}
 	}
 	// --- cycle / F13 probe ---
@@ -1132,6 +1236,8 @@ func runC15(cfg *runCfg) error {
 	m.Distribution["request_kinds"] = o.kinds
 	m.Distribution["start_counter"] = o.starts
 	m.Distribution["f13_reproduced_in_cycles"] = f13
+	m.Distribution["bursts_with_overlap_proved_by_control_counter"] = o.contended
+	m.Distribution["bursts_repeated_for_lack_of_overlap"] = o.dropped
 	m.Distribution["waits_expired"] = atomic.LoadInt32(&c15Expired)
 	m.Distribution["scenarios_skipped_after_expired_waits"] = o.skipped
 	if err := cf.write(cfg.outDir); err != nil {
